@@ -10,10 +10,12 @@ import (
 	mrand "math/rand"
 	"net"
 	"os"
+	"path/filepath"
 	"runtime"
 	"sort"
 	"strings"
 	"sync"
+	"syscall"
 	"time"
 
 	exserver "github.com/cybergarage/go-redis/examples/go-redisd/server"
@@ -43,7 +45,7 @@ type lifeCtl struct {
 	gated  map[string]bool
 	parked map[parkKey]bool
 	allow  map[parkKey]int
-	open   bool // gates disabled: everything passes
+	open   bool             // gates disabled: everything passes
 	loops  map[int64]string // gid -> "kind:gen"
 	gens   map[string]int   // kind -> generations seen
 	exited map[string]bool  // "kind:gen" loops that ran their deferred close
@@ -183,16 +185,38 @@ var portMu sync.Mutex
 // connection of this machine can hold one).  Parallel shards of one check get disjoint ranges.
 var portLo, portN = 20000, 12000
 
+// freePort hands out a port that nothing listens on AND that no other harness process has been given: every port in use
+// is leased through an exclusive flock on <tmp>/vharness-ports/<port> (several checks may run at the same time; without
+// the lease two of them can pick the same port between the test bind and the server's own bind).  A process keeps its 64
+// most recent leases, so a port is not handed out again while a scenario that used it may still be winding down.
+var portLeases []*os.File
+
 func freePort() int {
 	portMu.Lock()
 	defer portMu.Unlock()
-	for i := 0; i < 2000; i++ {
+	dir := filepath.Join(os.TempDir(), "vharness-ports")
+	os.MkdirAll(dir, 0o777)
+	for i := 0; i < 4000; i++ {
 		p := portLo + portRng.Intn(portN)
-		l, err := net.Listen("tcp", fmt.Sprintf(":%d", p))
+		f, err := os.OpenFile(filepath.Join(dir, fmt.Sprint(p)), os.O_CREATE|os.O_RDWR, 0o666)
 		if err != nil {
 			continue
 		}
+		if syscall.Flock(int(f.Fd()), syscall.LOCK_EX|syscall.LOCK_NB) != nil {
+			f.Close()
+			continue
+		}
+		l, err := net.Listen("tcp", fmt.Sprintf(":%d", p))
+		if err != nil {
+			f.Close()
+			continue
+		}
 		l.Close()
+		portLeases = append(portLeases, f)
+		if len(portLeases) > 64 {
+			portLeases[0].Close()
+			portLeases = portLeases[1:]
+		}
 		return p
 	}
 	must(fmt.Errorf("no free port"))
@@ -223,6 +247,7 @@ func probe(port int) (dialed bool, served bool) {
 	if err != nil {
 		return false, false
 	}
+	noTimeWait(conn)
 	defer conn.Close()
 	return true, pingOn(conn, 700*time.Millisecond)
 }
@@ -277,12 +302,23 @@ func lifePKI() *pki {
 	return thePKI
 }
 
+// noTimeWait: a probe binds its source address explicitly, and a socket bound with bind() keeps its port to itself while
+// it is in TIME_WAIT - the kernel then skips that port for every other outgoing connection of the machine.  Thousands of
+// probes per minute exhausted the ephemeral range that way (dials failed with "cannot assign requested address", here and
+// in anything else running on the machine).  Probes are therefore closed with a reset (no TIME_WAIT).
+func noTimeWait(c net.Conn) {
+	if tc, ok := c.(*net.TCPConn); ok {
+		tc.SetLinger(0)
+	}
+}
+
 func tlsProbe(port int) (dialed bool, served bool) {
 	d := net.Dialer{LocalAddr: &net.TCPAddr{IP: net.ParseIP(probeIP)}, Timeout: 500 * time.Millisecond}
 	raw, err := d.Dial("tcp", fmt.Sprintf("127.0.0.1:%d", port))
 	if err != nil {
 		return false, false
 	}
+	noTimeWait(raw)
 	defer raw.Close()
 	tc := tls.Client(raw, &tls.Config{RootCAs: lifePKI().rootPool, ServerName: "localhost", Certificates: lifePKI().clients["ok"], MinVersion: tls.VersionTLS12})
 	raw.SetDeadline(time.Now().Add(1500 * time.Millisecond))
@@ -583,7 +619,11 @@ func (rn *runner) runLife(id int, s LifeScript, setHook func(*lifeCtl)) {
 				}
 			}
 			lr.clients[x] = c
-			rn.rec.Emit(Ev{"ev": "dial", "x": x, "port": kind, "ok": c.dialOK, "phase": lr.phase})
+			derr := ""
+			if err != nil {
+				derr = err.Error() // (diagnosis only: the specification does not read it)
+			}
+			rn.rec.Emit(Ev{"ev": "dial", "x": x, "port": kind, "ok": c.dialOK, "phase": lr.phase, "err": derr})
 		case "accepted":
 			c := lr.clients[num(1)]
 			gate := "recv.before-register"
